@@ -159,7 +159,8 @@ def run(rep, tier):
         ('ROUTE-raises', 'every route compiles in both conventions'),
     ]:
         rep.rule(rid, txt)
-    found, stats, nmods = routes.run(rep, 'C11', ['CONV-', 'ENTRY-', 'SPILL-', 'WIRE-', 'FREE-name', 'SUPER-', 'ADAPTOR', 'SUBIMPORT-'])
+    found, stats, nmods = routes.run(rep, 'C11', ['CONV-', 'ENTRY-', 'SPILL-', 'WIRE-', 'FREE-name', 'SUPER-', 'ADAPTOR', 'SUBIMPORT-',
+                                                   'LOCAL-shadow'])
     rep.floor('route modules emitted', nmods, 30)
     rep.floor('call sites examined', stats['callsites'], 250)
     C13.late_binding(rep)
